@@ -444,9 +444,58 @@ static void sweep_c05_unsupported() {
     stats().exhaustive = true;
 }
 
+// ---------------------------------------------------------------- reference self-test (frozen vectors)
+// Pins the *models* so that they cannot drift silently: CRC-32 check value, the two "seen in the wild"
+// header checksums from the repository's test_metadata_crcs_le (standard and historical CRC), field
+// arithmetic spot values and a hash over all 496 closed-form generator matrices.
+static void selftest() {
+    using namespace ref;
+    std::vector<std::string> bad;
+    auto expect = [&](const char *what, uint64_t got, uint64_t want) { if (got != want) bad.push_back(std::string(what) + ": got " + std::to_string(got) + " want " + std::to_string(want)); };
+    expect("gf16_mul", gf16_mul(0x1234, 0x5678), 25380); expect("gf16_inv", gf16_inv(0x1234), 11497); expect("gf16 reduce", gf16_mul(0x8000, 2), 0x100b);
+    expect("gf16 inv*x", gf16_mul(0x1234, gf16_inv(0x1234)), 1);
+    expect("gf8_mul", gf8_mul(0x57, 0x83), 49); expect("gf8_inv", gf8_inv(0x53), 140); expect("gf8 reduce", gf8_mul(0x80, 2), 0x1d);
+    expect("coef(10,10,0)", rs16_coef(10, 10, 0), 1); expect("coef(10,13,7)", rs16_coef(10, 13, 7), 61442); expect("coef(4,5,2)", rs16_coef(4, 5, 2), 27503);
+    uint64_t h = 1469598103934665603ull;
+    for (int k = 1; k <= 31; k++) for (int m = 1; k + m <= 32; m++) { auto g = rs16_generator(k, m); for (auto x : g) for (int b = 0; b < 4; b++) { h ^= (x >> (8 * b)) & 0xff; h *= 1099511628211ull; } }
+    expect("hash of 496 closed-form matrices", h, 4230971072939337423ull);
+    auto a = isa_rs_matrix(10, 14); auto c = isa_cauchy_matrix(10, 14);
+    uint64_t h2 = 1469598103934665603ull; for (auto x : a) { h2 ^= x; h2 *= 1099511628211ull; } for (auto x : c) { h2 ^= x; h2 *= 1099511628211ull; }
+    expect("isa matrices hash", h2, 905858227553292095ull);
+    const uint8_t nine[] = "123456789";
+    expect("crc32 check value", crc32_std(nine, 9), 0xcbf43926u); expect("legacy crc ascii", crc32_legacy(nine, 9), 0x206af85bu);
+    const uint8_t hi[] = {0x80, 0xff, 0x01, 0xfe, 0x7f, 0x81, 0x00, 0xaa};
+    expect("crc32 high bytes", crc32_std(hi, 8), 0x7ddfa691u); expect("legacy crc high bytes", crc32_legacy(hi, 8), 0xe2fcb29fu);
+    const uint8_t hdr[] = "\x03\x00\x00\x00\x00\x00\x04\x00\x00\x00\x00\x00\x00\x00\x10\x00\x00\x00\x00\x00\x01\x00\x00\x00\x00\x00\x00\x00\x00\x00\x00\x00\x00\x00\x00\x00\x00\x00\x00\x00\x00\x00\x00\x00\x00\x00\x00\x00\x00\x00\x00\x00\x00\x00\x07\x01\x0e\x02\x00";
+    expect("wild header std crc", crc32_std(hdr, 59), 0x1873f8ecu); expect("wild header legacy crc", crc32_legacy(hdr, 59), 0xb945ee22u);
+    for (int i = 0; i < N_XOR_SHAPES; i++) {       // golden equations: both directions, distance exactly hd
+        const XorShape &s = XOR_SHAPES[i];
+        std::vector<uint64_t> cols;
+        for (int j = 0; j < s.k + s.m; j++) cols.push_back(xor_column(&s, j));
+        int n = s.k + s.m, mind = 0;
+        for (int e = 1; e <= s.hd && !mind; e++) {
+            std::vector<int> idx(e); for (int q = 0; q < e; q++) idx[q] = q;
+            for (;;) {
+                std::vector<uint64_t> v; uint64_t gone = 0; for (int x : idx) gone |= 1ull << x;
+                for (int q = 0; q < n; q++) if (!(gone >> q & 1)) v.push_back(cols[q]);
+                if (rank_gf2(v) != s.k) { mind = e; break; }
+                int q = e - 1; while (q >= 0 && idx[q] == n - e + q) q--; if (q < 0) break; idx[q]++; for (int z = q + 1; z < e; z++) idx[z] = idx[z - 1] + 1;
+            }
+        }
+        if (mind != s.hd) bad.push_back("golden table " + std::to_string(s.k) + "," + std::to_string(s.m) + "," + std::to_string(s.hd) + " has distance " + std::to_string(mind));
+    }
+    expect("number of golden tables", N_XOR_SHAPES, 38);
+    if (!bad.empty()) { for (auto &b : bad) fprintf(stderr, "REF-SELFTEST-FAILED %s\n", b.c_str()); fflush(stderr); _exit(2); }
+    Case sc; sc.set("selftest", 1);
+    Result r; r.nontrivial = false;
+    stats().record(sc, r);
+    stats().notes.push_back("reference self-test passed (frozen vectors)");
+}
+
 int main(int argc, char **argv) {
     Harness h;
     h.prop = "C07";
+    h.mode("selftest", selftest);
     h.mode("c07", [] { rc_property("C07 wire format", gen_c07, run_c07); }, run_c07);
     h.mode("c07_sweep", sweep_c07, run_c07);
     h.mode("c08", [] { rc_property("C08 sizes", gen_c08, run_c08); }, run_c08);
